@@ -89,7 +89,7 @@ PROPS = {
         assumptions=['only the flag algebra, merge path and row layout are proved; matching/extraction filters are assumed'],
     ),
     'C03': dict(
-        units=['semi', 'driver', 'merge'],
+        units=['semi', 'driver', 'merge', 'cont'],
         kani_quick=[],
         kani_thorough=[],
         design_ref='DESIGN.md section 4 (U-SEMI, U-REBUILD, U-MERGE) and section 5 C03',
@@ -99,7 +99,7 @@ PROPS = {
                    'that atom\'s own timestamp column and mapped through atom_mapping; lemma: these variants accept every match with at least one new atom exactly '
                    'once and no all-old match; (b) run_rules_impl stamps every rule it ran with the timestamp of the run; (c) run_rules_inner, flush_updates_inner '
                    'and rebuild strictly advance the timestamp on every successful path, rebuild or not; (d) a row rewritten by the merge callback carries the '
-                   'incoming timestamp. Equality of whole databases under --naive (a two-run relation) is not stated.',
+                   'incoming timestamp; (e) the dirty-id closure handed to the row refresh is closed under container nesting (unit cont). Equality of whole databases under --naive (a two-run relation) is not stated.',
         level_note='Trusted: RuleSetBuilder::add_rule_from_cached_plan restricts the cached rule by the given constraints; rebuilt/refreshed rows are re-inserted '
                    'with next_ts (core-relations rebuild.rs; assumed); Database contracts as for C04; merge-unit assumptions as for C05.',
         assumptions=['engine-level re-timestamping during rebuild and the join engine honouring the constraints are assumed'],
